@@ -443,6 +443,20 @@ def handleOps (op : String) (args : List String) (impl : Impl) : Option Ans :=
       | _ => "FAIL:decode"
     pure { model := "-", spec := sp, branch := "leap_table:" ++ which }
   -- ---------------------------------------------------------------- C12
+  | "ecmp_parts", [c, ns, b] => do
+    -- C12 on an epoch built from RAW TAI parts (the nanosecond field may hold several centuries): comparisons answer the
+    -- chronological question whatever way the operand was constructed (spec only; |c| <= 100, nothing saturates)
+    let c ← c.toInt?; let ns ← ns.toInt?; let b ← parseEp? b
+    let ia : Int := c * 3155760000000000000 + ns
+    let ib ← instOf b
+    let ins := b.ts == TS.UTC && inInserted iersTbl ia
+    let wc : Int := if ia < ib then -1 else if ia == ib then 0 else 1
+    let sp := if !(convFits b TS.TAI) || ins then noPanic impl else match impl with
+      | .ok [cm, e, rc, re] =>
+        verdict [("cmp", cm == toString wc), ("eq", e == bool01 (wc == 0)), ("reverse_cmp", rc == toString (-wc)), ("reverse_eq", re == bool01 (wc == 0))]
+      | .other w => "FAIL:" ++ w
+      | _ => "FAIL:decode"
+    pure { model := "-", spec := sp, branch := "ecmp_parts:" ++ b.ts.name ++ (if ns ≥ 3155760000000000000 then ":raw" else ":canonical") }
   | "eeq", [a, b] | "ene", [a, b] => do
     let a ← parseEp? a; let b ← parseEp? b
     let m := (Ep.eqb a b).map (fun x => if op == "eeq" then x else !x)
